@@ -4,13 +4,18 @@ Proof: lean/Reduino/Props/C11.lean over the model of `_eval_const` (non-interfer
 Ties: (i) the evaluator model vs the real `_eval_const` on generated expression trees (incl. non-whitelisted nodes);
 (ii) audit tie: real parse()/emit() in a subprocess under sys.addaudithook with canaries and a time limit, on supported
 scripts, scripts with a hostile expression in every argument position, arbitrary valid Python, and byte noise — outcome
-class must be returns / ValueError / SyntaxError-for-non-Python, with no audit event; (iii) no state carried between calls."""
+class must be returns / ValueError / SyntaxError-for-non-Python, with no audit event; import lines in every spelling and place, with user modules and
+packages lying next to the script (markers written when their code runs; sys.modules; audit events); the module-level state of Reduino and
+Reduino.transpile.* is compared before/after by a structural description that also covers counters, iterators, function defaults and closures, class
+attributes; (iii) no state carried between calls: identifier reuse across device kinds, and pooled + name-minting scripts (tuple assignments that need
+temporaries) after random in-process histories against a module-reloaded reference."""
 from __future__ import annotations
 
 import ast
 import importlib
 import json
 import os
+import random
 import subprocess
 
 import common
@@ -21,6 +26,8 @@ TRUSTED = [
     "Lean 4.33 kernel; axioms ⊆ {propext, Classical.choice, Quot.sound}",
     "'no file/process/network/environment access', 'terminates promptly' and 'only ValueError/SyntaxError' are run-time facts: they rest on the audit tie "
     "(sys.addaudithook + canaries + 5 s limit in a subprocess) over the generated inputs — labelled partial",
+    "'mutates its input-independent state' is observed as a change of the structural description (`describe` in the audit child) of the module-level objects of Reduino and "
+    "Reduino.transpile.*: state hidden in C-level objects without repr/length hint/getstate, or in other modules, is seen only through the history oracle of (iii)",
     "the evaluator model covers int/bool/str/list values and the whole operator table + - * // % ** << >> & | ^ /, unary + - not (unary ~ and @ are unsupported nodes), and/or, "
     "comparisons, conditionals, f-strings, casts int/bool/str, len/abs/max/min; float VALUES are outside the model: `/` and `**` with a negative exponent answer 'ok float' "
     "(accepted, value not predicted) after Python's own ZeroDivisionError/OverflowError checks, and the tie compares such an outcome only when the float-producing operation "
@@ -262,28 +269,88 @@ def hook(ev, args):
             return
         events.append((ev, str(a0)[:80]))
 sys.path.insert(0, sys.argv[1])
+SITE = sys.argv[3] if len(sys.argv) > 3 else None
+if SITE:
+    sys.path.insert(1, SITE)          # the directory of the user's script: `python sketch.py` puts it on sys.path, target() then transpiles the file
+    os.chdir(SITE)
 from Reduino.transpile.parser import parse
 from Reduino.transpile.emitter import emit
 import Reduino.transpile.parser as P
 import Reduino.transpile.emitter as Em
 import Reduino.transpile.ast as IR
-import copy
+import types, re as _re, operator, functools
+OURS = lambda: [m for n, m in sorted(sys.modules.items()) if n == "Reduino" or n.startswith("Reduino.transpile")]
+def describe(v, depth, seen):
+    # a comparable description of everything reachable from a module-level name that a later transpile could read: containers by content, functions by
+    # their defaults / attributes / closure cells, classes of the transpiler by their data attributes, other objects (counters, iterators, generators of
+    # names, random generators ...) by their own repr / length hint / getstate() and instance attributes
+    if isinstance(v, (int, float, str, bool, bytes, complex, type(None))):
+        return repr(v)
+    if isinstance(v, types.ModuleType):
+        return "<module " + v.__name__ + ">"
+    if isinstance(v, _re.Pattern):
+        return "<re %r %d>" % (v.pattern, v.flags)
+    if id(v) in seen or depth > 8:
+        return "<again " + type(v).__name__ + ">"
+    seen = seen | {id(v)}
+    d = lambda x: describe(x, depth + 1, seen)
+    if isinstance(v, dict):
+        return "{" + ", ".join(sorted(d(k) + ": " + d(x) for k, x in list(v.items()))) + "}"
+    if isinstance(v, (list, tuple)):
+        return type(v).__name__ + "(" + ", ".join(d(x) for x in v) + ")"
+    if isinstance(v, (set, frozenset)):
+        return type(v).__name__ + "(" + ", ".join(sorted(d(x) for x in v)) + ")"
+    if isinstance(v, functools.partial):
+        return "<partial " + d(v.func) + d(v.args) + d(v.keywords) + ">"
+    if isinstance(v, (types.FunctionType, types.MethodType, staticmethod, classmethod, property)) or hasattr(v, "__wrapped__"):
+        f = getattr(v, "__func__", None) or getattr(v, "__wrapped__", None) or getattr(v, "fget", None) or v
+        if not isinstance(f, types.FunctionType) or not str(getattr(f, "__module__", "")).startswith("Reduino"):
+            return "<callable " + str(getattr(f, "__qualname__", type(f).__name__)) + ">"
+        cells = []
+        for c in f.__closure__ or ():
+            try:
+                cells.append(d(c.cell_contents))
+            except ValueError:
+                cells.append("<empty cell>")
+        return "<fn %s defaults=%s kw=%s attrs=%s cells=%s>" % (f.__qualname__, d(f.__defaults__), d(f.__kwdefaults__), d(vars(f)), cells)
+    if isinstance(v, type):
+        if not str(v.__module__).startswith("Reduino"):
+            return "<class " + v.__module__ + "." + v.__qualname__ + ">"
+        return "<class %s %s>" % (v.__qualname__, d({k: x for k, x in vars(v).items() if k not in ("__dict__", "__weakref__", "__doc__", "__module__")}))
+    out = "<" + type(v).__name__
+    if type(v).__repr__ is not object.__repr__:
+        try:
+            out += " " + repr(v)
+        except Exception:
+            pass
+    try:
+        out += " hint=%d" % operator.length_hint(v, -1)
+    except Exception:
+        pass
+    if hasattr(v, "getstate"):
+        try:
+            out += " state=%d" % hash(repr(v.getstate()))
+        except Exception:
+            pass
+    if hasattr(v, "__dict__"):
+        out += " " + d(vars(v))
+    for k in getattr(type(v), "__slots__", ()) or ():
+        if isinstance(k, str) and hasattr(v, k):
+            out += " %s=%s" % (k, d(getattr(v, k)))
+    return out + ">"
 def snapshot():
     snap = {}
-    for m in (P, Em, IR):
-        for k, v in vars(m).items():
+    for m in OURS():
+        for k, v in list(vars(m).items()):
             if k == "_VERIF_SKIP_LOG" or k.startswith("__"):
                 continue
-            if isinstance(v, (dict, list, set, frozenset, tuple, int, float, str, bool, type(None))):
-                try:
-                    snap[m.__name__ + "." + k] = copy.deepcopy(v)
-                except Exception:
-                    pass
+            snap[m.__name__ + "." + k] = describe(v, 0, frozenset())
     return snap
 state0 = snapshot()
 sys.addaudithook(hook)
 src = open(sys.argv[2], encoding="utf-8", errors="surrogateescape").read()
 env0 = dict(os.environ)
+mods0 = set(sys.modules)
 ARMED[0] = True
 t0 = time.time()
 try:
@@ -305,6 +372,9 @@ state1 = snapshot()
 res["state_changed"] = sorted(k for k in set(state0) | set(state1) if k not in state0 or k not in state1 or state0[k] != state1[k])
 res["events"] = events
 res["env_changed"] = dict(os.environ) != env0
+# modules of the USER (anything importable from the script's directory) that were loaded while transpiling; the package itself leaves a marker when its code runs
+res["user_modules_loaded"] = sorted(n for n in set(sys.modules) - mods0 if SITE and str(getattr(sys.modules[n], "__file__", "") or "").startswith(SITE))
+res["user_code_ran"] = bool(SITE) and os.path.exists(os.path.join(SITE, "ran-%d" % os.getpid()))
 res["secs"] = round(time.time() - t0, 3)
 print(json.dumps(res))
 """
@@ -343,6 +413,69 @@ ARG_HOSTILE = ["1e999", "-1e999", "1e308 * 10", "1e999 - 1e999", "float('inf')",
                "[0.0, 1, 2, 3, 4, 5, 6, 7]", "[8 / 2, 1, 1, 1, 1, 1, 1, 1]", "[1.5]", "8 / 2",
                "'x'", "[1]", "None", "-1", "10 ** 30", "-(10 ** 30)", "1 / 0", "True", "2.5", "-2.5", "()", "{}", "0", "''", "(1, 2)", "[[1]]", "['a']", "0.0001", "2 ** 0.5",
                "'a' * 3", "not 1", "1 < 2 < 3", "f'{1}'", "[True, 2.0]", "7 // 2.0", "1e3", "0x1F", "-0.0"]
+# ---- import lines.  The front end drops them; resolving, checking or following one on the host is executing user code: a package `__init__` runs as soon as a
+# submodule of it is looked up (importlib.util.find_spec("pkg.sub") imports `pkg`).  The user's modules live next to the script (USER_SITE is put on sys.path like the
+# script's directory is by `python sketch.py`); each of them leaves a marker file when its code runs.  Standard-library packages that the child has not loaded stand for
+# "importable but not the user's": loading them shows as `import` audit events.
+USER_MODULES = {"solo.py": "", "fieldkit/__init__.py": "from . import pins\n", "fieldkit/pins.py": "", "fieldkit/sub/__init__.py": "", "fieldkit/sub/deep.py": "",
+                "boards/__init__.py": "", "boards/uno/__init__.py": "", "boards/uno/pinout.py": ""}
+MARKER = ("import os as _os\nopen(_os.path.join({site!r}, 'ran-%d' % _os.getpid()), 'w').write(__name__)\nSTATUS_PIN = 13\nLEVEL = 3\n"
+          "def setup_board():\n    return 13\n")
+IMPORT_TARGETS = ["solo", "fieldkit", "fieldkit.pins", "fieldkit.sub", "fieldkit.sub.deep", "boards.uno", "boards.uno.pinout", "boards.nosuch", "nosuch_pkg.sub",
+                  "xml.dom.minidom", "wsgiref.util", "email.mime.text", "Reduino.Actuators.Led", "Reduino.transpile.parser", "Reduino.Utils"]
+IMPORT_FORMS = ["import {m}", "import {m} as kit", "import os, {m}", "from {m} import STATUS_PIN", "from {m} import STATUS_PIN as pin, LEVEL", "from {m} import *",
+                "from {m} import (STATUS_PIN, LEVEL)", "import {m}  # board support", "from {m} import setup_board  # noqa", "import  {m}", "from  {m}  import  LEVEL",
+                "import {m};", "from {m} import STATUS_PIN; x = 1", "kit = __import__(\"{m}\")", "import importlib\nkit = importlib.import_module(\"{m}\")"]
+IMPORT_PLACES = ["{i}\nled = Led(13)\nled.on()\n", "led = Led(13)\n{i}\nwhile True:\n    led.toggle()\n", "led = Led(13)\nwhile True:\n    {i}\n    led.toggle()\n",
+                 "def helper():\n    {i}\n    return 1\nled = Led(13)\n", "led = Led(13)\nx = 1\nif x > 0:\n    {i}\n    led.on()\n",
+                 "try:\n    {i}\nexcept ImportError:\n    x = 0\nled = Led(13)\n", "{i}\nled = Led(STATUS_PIN)\nwhile True:\n    led.toggle()\n    sleep(LEVEL)\n",
+                 "for k in range(2):\n    {i}\nled = Led(13)\n"]
+
+
+def make_user_site(site):
+    for rel, extra in USER_MODULES.items():
+        f = site / rel
+        f.parent.mkdir(parents=True, exist_ok=True)
+        f.write_text(MARKER.format(site=str(site)) + extra)
+
+
+def import_inputs(rng, full):
+    combos = [(m, f, p) for m in IMPORT_TARGETS for f in IMPORT_FORMS for p in IMPORT_PLACES]
+    if not full:
+        # every (target, form) pair at one random place, plus every (target, place) pair with one random form
+        combos = [(m, f, rng.choice(IMPORT_PLACES)) for m in IMPORT_TARGETS for f in IMPORT_FORMS if rng.random() < 0.5] + \
+                 [(m, rng.choice(IMPORT_FORMS), p) for m in IMPORT_TARGETS for p in IMPORT_PLACES if rng.random() < 0.35]
+    out = []
+    for m, f, p in combos:
+        line = f.format(m=m)
+        ind = " " * (len(p[:p.index("{i}")]) - len(p[:p.index("{i}")].rstrip(" ")))
+        out.append(scripts_pool.HEADER + p.replace("{i}", line.replace("\n", "\n" + ind)))
+    return out
+
+
+def minting_scripts(rng, n):
+    """scripts whose translation invents names (temporaries of tuple assignments to declared names) at top level, in the main loop, in for/if bodies (sibling
+    branches), in a helper function, several times per script: the numbering of invented names is the classic piece of state that survives a call"""
+    out = {}
+    for i in range(n):
+        names = rng.sample(["a", "b", "c", "lo", "hi", "prev", "cur"], rng.choice([2, 2, 3]))
+        decl = "mon = SerialMonitor(9600)\n" + "".join(f"{v} = {j + 1}\n" for j, v in enumerate(names))
+        rot = names[1:] + names[:1]
+
+        def stmt():
+            return ", ".join(names) + " = " + ", ".join(rng.choice([r, f"{r} + {names[0]}", f"{r} * 2"]) for r in rot)
+        w = f"mon.write({names[0]})\n"
+        place = ["top", "loop", "for", "def", "if", "twice"][i % 6]
+        body = {"top": decl + stmt() + "\n" + w,
+                "loop": decl + "while True:\n    " + stmt() + "\n    " + w,
+                "for": decl + "for i in range(3):\n    " + stmt() + "\n" + w,
+                "def": "mon = SerialMonitor(9600)\ndef step(" + ", ".join(names) + "):\n    " + stmt() + f"\n    return {names[0]}\nmon.write(step(" + ", ".join(str(j) for j in range(len(names))) + "))\n",
+                "if": decl + f"if {names[0]} < {names[1]}:\n    " + stmt() + "\nelse:\n    " + stmt() + "\n" + w,
+                "twice": decl + stmt() + "\n" + stmt() + "\nwhile True:\n    " + stmt() + "\n    " + stmt() + "\n    " + w}[place]
+        out[f"minting-{place}-{i}"] = scripts_pool.HEADER + body
+    return out
+
+
 KNOWN_SLOW = [("x = 9**9**9\n", "eval:pow-bomb"), ("x = 1 << (10**9)\n", "eval:shift-bomb"), ("x = " + "+".join(["1"] * 3000) + "\n", "eval:deep-recursion")]
 
 
@@ -446,6 +579,10 @@ def run(ctx: Ctx) -> int:
         inputs.append(("mutated", base[:cut] + rng.choice(["(", ")", "\"", "\n\t", ":", "=", "\\", "\x00", "é", "  "]) + base[cut + rng.randint(0, 3):], None))
     for src, key in KNOWN_SLOW:
         inputs.append(("bomb", scripts_pool.HEADER + src, key))
+    site = ctx.work / "usersite"
+    make_user_site(site)
+    for src in import_inputs(random.Random(f"{ctx.seed}:C11:imports"), ctx.tier == "thorough" or bool(ctx.broken)):      # own stream: appended after all older inputs
+        inputs.append(("import", src, None))
     child = ctx.work / "audit_child.py"
     child.write_text(CHILD)
     procs = []
@@ -458,7 +595,7 @@ def run(ctx: Ctx) -> int:
     def one(item):
         kind, src, key, f = item
         try:
-            p = subprocess.run([common.PY, str(child), str(common.SRC), str(f)], capture_output=True, text=True, timeout=5 if kind != "bomb" else 3,
+            p = subprocess.run([common.PY, str(child), str(common.SRC), str(f)] + ([str(site)] if kind == "import" else []), capture_output=True, text=True, timeout=5 if kind != "bomb" else 3,
                                env={k: v for k, v in os.environ.items() if k != "REDUINO_CANARY"})
             if p.returncode != 0 or not p.stdout.strip():
                 return {"outcome": "crash:process", "msg": p.stderr[-300:], "events": []}
@@ -477,6 +614,8 @@ def run(ctx: Ctx) -> int:
         if canary.exists():
             ctx.fail("exec:canary", "user code ran during transpilation (canary file created)", replay)
             canary.unlink()
+        if r.get("user_code_ran") or r.get("user_modules_loaded"):
+            ctx.fail("exec:user-module-imported", f"transpiling executed a module of the user on the host: loaded {r.get('user_modules_loaded')}, marker written by its code: {r.get('user_code_ran')}", replay)
         if bad_events or r.get("env_changed"):
             ctx.fail("exec:side-effect", f"audit events during transpilation: {bad_events[:3]} env_changed={r.get('env_changed')}", replay)
         if r.get("state_changed"):
@@ -538,6 +677,9 @@ def run(ctx: Ctx) -> int:
     CH = "import sys, json\nsys.path.insert(0, sys.argv[1])\nfrom Reduino.transpile.parser import parse\nfrom Reduino.transpile.emitter import emit\nres = {}\n" \
          "for k, s in json.load(open(sys.argv[2])).items():\n    try:\n        res[k] = emit(parse(s))\n    except Exception as e:\n        res[k] = 'raise:' + type(e).__name__\n    break\nprint(json.dumps(res))\n"
     seconds = sorted({scripts_pool.HEADER + decls[b] + "\n" + u + "\n" for _, b, u in pairs})
+    hist = dict(scripts_pool.all_scripts())
+    hist.update(minting_scripts(random.Random(f"{ctx.seed}:C11:minting"), ctx.n(12, 60)))
+    seconds += sorted(set(hist.values()) - set(seconds))
     # fresh-process reference for every second script (one process each is too slow: a fresh interpreter per 40 scripts, first only … so instead
     # reference = output in THIS process before any first script of a different kind was parsed is not available either) -> use subprocess batches of 1
     ref = {}
@@ -561,7 +703,28 @@ def run(ctx: Ctx) -> int:
             ctx.fail("state:leaks-between-calls", f"transpiling a script that binds `x` to {a} changes the result for a later script that binds `x` to {b}",
                      {"first": first, "second": second})
             break
+    # the firmware for a text does not depend on what the process transpiled before: pooled feature scripts and name-minting scripts, each after random histories
+    # of the others and of itself, against the module-reloaded reference
+    hrng = random.Random(f"{ctx.seed}:C11:history")
+    leaked = False
+    for rnd in range(ctx.n(2, 10)):
+        order = sorted(hist)
+        hrng.shuffle(order)
+        order += order[: len(order) // 2]
+        for j, nm in enumerate(order):
+            got = out(hist[nm])
+            ctx.case(f"history:{rnd}:{j}:{nm}", nontrivial=not got.startswith("raise"))
+            ctx.count("history:" + ("rejected" if got.startswith("raise") else "returns"))
+            if got != ref[hist[nm]] and not leaked:
+                leaked = True
+                ctx.fail("state:leaks-between-calls", f"the firmware generated for script {nm!r} depends on the scripts transpiled earlier in the same process",
+                         {"script": hist[nm], "transpiled_before": [hist[x] for x in order[max(0, j - 4):j]], "fresh_output": ref[hist[nm]], "output_after_history": got})
     ctx.cov["rule"] = ("(i) random expression trees (depth <= 3) over the whitelisted and 12 non-whitelisted node kinds; (ii) feature scripts, 16 hostile expressions x argument "
                        "positions, ~45 valid-Python torture snippets, the repo's own sources, byte noise and single-character mutations, each in a fresh audited subprocess; "
-                       "(iii) identifier reuse across device kinds in one process vs module-reloaded reference")
+                       "(iii) identifier reuse across device kinds in one process vs module-reloaded reference; pooled feature scripts and generated name-minting scripts (tuple assignments "
+                       "needing temporaries at top level / main loop / for / if-else / helper function) after random in-process histories vs module-reloaded reference; "
+                       "(ii) also: import lines (15 spellings incl. __import__/importlib x 8 places x user modules and packages lying next to the script, absent ones, unloaded stdlib "
+                       "packages, Reduino's own) with the user's directory on sys.path — markers written by the user's modules, sys.modules and audit events; module state compared "
+                       "by a structural description of every module-level object of Reduino and Reduino.transpile.* (containers, function defaults/attributes/closures, class data, "
+                       "counters/iterators/generators by repr, length hint, getstate)")
     return ctx.finish(TRUSTED, search=None)
